@@ -53,6 +53,10 @@ func (rc *CRespCodec) Decode(c CConn) (*Msg, error) {
 		n, err = parseLen(line[1:])
 		if n < 1 || err != nil {
 			logging.Warnf("[%dm][%dc] unexpect resp, buf: %s", msgId, c.Fd(), utils.FormatRedisRESPMessages(buf.PeekAll()))
+			if err == nil {
+				// "*0", "*-1": not a request
+				err = codec.ErrInvalidResp
+			}
 			return nil, err
 		}
 	default:
